@@ -144,6 +144,29 @@ Definition inplace_covers_b : bool :=
                     || String.eqb (fst f) "geometry" || String.eqb (fst f) "materials.state")
           reset_fields.
 
+(** ** the errored path
+
+    A track whose initialisation fails ([apply_errored]) skips the step-limit
+    part of pre-step but is still processed by the tracking cut (which ADDS
+    its energy to the step's energy deposition), by the step gather and by
+    LocateAlive/ProcessSecondaries (which read the secondaries span).  The
+    [temp_ok] justification "cleared at the start of every step" of these
+    fields therefore has to hold on EVERY path through PreStepExecutor that a
+    non-inactive track can take: the translator derives [prestep_clears] from
+    the control flow of PreStepExecutor::operator() (no [return] other than
+    the one for inactive slots before the clearing, clearing unconditional). *)
+Definition errored_path_reads : list fld :=
+  [ ("physics.state", "energy_deposition");   (* TrackingCutExecutor deposit_energy (+=), StepGatherExecutor *)
+    ("physics.state", "secondaries") ].       (* LocateAliveExecutor / ProcessSecondariesExecutor for status <> inactive *)
+Definition prestep_cleared_temps : list fld :=
+  [ ("physics.state", "energy_deposition"); ("physics.state", "secondaries"); ("physics.state", "element") ].
+Definition errored_path_clean_b : bool :=
+  forallb (fun f => mem f reset_fields || mem f prestep_clears) errored_path_reads
+  && subset prestep_cleared_temps prestep_clears
+  && subset prestep_cleared_temps temp_ok.
+Definition errored_path_dirty : list fld :=
+  filter (fun f => negb (mem f reset_fields || mem f prestep_clears)) (errored_path_reads ++ prestep_cleared_temps).
+
 (** ** thread -> slot discipline (hypothesis [isolated] of [perm_invariance])
 
     Kernels address per-track data through CoreTrackView, which maps the
